@@ -832,12 +832,17 @@ fn decode_obs<S: Sch>(buf: &[u8], with_acc: bool, out: &mut String) {
             };
             let sizes = [1usize << 16, 1 << 20, (1 << 24) - buf.len(), 1 << 24, (1 << 24) + 4096, 1 << 25];
             let mut same = 0usize;
+            // one zeroed arena for all sizes; the item is written to its front and wiped afterwards
+            static ARENA: std::sync::Mutex<Vec<u8>> = std::sync::Mutex::new(Vec::new());
+            let mut arena = ARENA.lock().unwrap_or_else(|e| e.into_inner());
+            if arena.len() < (1 << 25) + 512 {
+                arena.resize((1 << 25) + 512, 0u8);
+            }
+            arena[..buf.len()].copy_from_slice(buf);
             for n in sizes {
-                let mut big = Vec::with_capacity(buf.len() + n);
-                big.extend_from_slice(buf);
-                big.resize(buf.len() + n, 0u8);
+                let big: &[u8] = &arena[..buf.len() + n];
                 let got = guard(|| {
-                    let mut b: &[u8] = &big;
+                    let mut b: &[u8] = big;
                     let r = Enr::<S::K>::decode(&mut b);
                     (r.is_ok(), big.len() - b.len())
                 });
@@ -845,6 +850,9 @@ fn decode_obs<S: Sch>(buf: &[u8], with_acc: bool, out: &mut String) {
                 if got == plain {
                     same += 1;
                 }
+            }
+            for b in arena[..buf.len()].iter_mut() {
+                *b = 0;
             }
             format!("{par} big={same}/{}", sizes.len())
         } else {
